@@ -294,6 +294,6 @@ def _cs(tr):
 
 META = {
     "technique": "recording hook on the builder's per-chain method + offline sign monitor over coefficient-sharing chain pairs (eta from particle parities) and differential observation of helicity vs canonical builds of the same reaction with CG-expanded coefficients",
-    "level_text": "For every helicity-formalism reaction with parity-conserving nodes (all fixtures, synthetic reactions with 1..4 constrained nodes of like and unlike eta; four naming-flag settings) every pair of chains that shares a coefficient symbol and differs only by reversed daughter helicities at some nodes is judged: relative sign == product of eta over exactly those nodes. For every fixture pair and synthetic pair available in both formalisms, random complex LS coefficients are drawn, the helicity coefficients are computed from the Clebsch-Gordan expansion of the unprefactored representative, and both intensities are compared at 4 random points.",
+    "level_text": "For every helicity-formalism reaction with parity-conserving nodes (all fixtures, synthetic reactions with 1..4 constrained nodes of like and unlike eta; four naming-flag settings) every pair of chains that shares a coefficient symbol and differs only by reversed daughter helicities at some nodes is judged: relative sign == product of eta over exactly those nodes. For every fixture pair and synthetic pair available in both formalisms, random complex LS coefficients are drawn, the helicity coefficients are computed from the Clebsch-Gordan expansion of the unprefactored representative, and both intensities are compared at 4 random points. Builder histories (earlier formulate() calls under other naming flags on the same builder) and shuffled particle names (daughter name order != id order) are part of the workload.",
     "level_note": "eta from qrules particle parities; chain values via the C02 reference; pairs that share a symbol for a reason other than a parity flip (helicities left out of the name) are not judged.",
 }
